@@ -40,11 +40,11 @@ func lam(params []string, body *ast.Node) *ast.Node { return ast.LambdaN(params,
 
 func c15Templates() []c15Template {
 	v, i, arr := ast.VarN("v"), ast.VarN("i"), ast.VarN("arr")
-	observe3 := lam([]string{"v", "i", "arr"}, ast.ArrN(ast.ArrN(v, i, ast.CallN("count", arr))))
+	observe3 := lam([]string{"v", "i", "arr"}, ast.ArrN(ast.ArrN(v, i, ast.CallN("count", arr), ast.CallN("type", arr), ast.CallN("string", arr))))
 	observe2 := lam([]string{"v", "i"}, ast.ArrN(ast.ArrN(v, i)))
 	observe1 := lam([]string{"v"}, ast.ArrN(ast.ArrN(v)))
 	observe0 := lam(nil, ast.StrN("x"))
-	observe4 := lam([]string{"v", "i", "arr", "extra"}, ast.ArrN(ast.ArrN(v, i, ast.CallN("count", arr), ast.CallN("exists", ast.VarN("extra")))))
+	observe4 := lam([]string{"v", "i", "arr", "extra"}, ast.ArrN(ast.ArrN(v, i, ast.CallN("count", arr), ast.CallN("type", arr), ast.CallN("exists", ast.VarN("extra")))))
 	fold := lam([]string{"acc", "v"}, ast.BinN("&", ast.BinN("&", ast.CallN("string", ast.VarN("acc")), ast.StrN("|")), ast.CallN("string", v)))
 	isOne := lam([]string{"v"}, ast.BinN("=", v, ast.NumN(1)))
 	T := func(name string, mk func(a *ast.Node) *ast.Node) c15Template { return c15Template{name, mk} }
